@@ -43,7 +43,7 @@ def run(ctx, report):
     for f in probe:
         c = D.all_impls(ctx, report, f, "probe", "C06", label_prefix="probe:", only_kinds=("derive",))
         n += c["derive"]
-    report.floor("C06.DERIVE", "derive expansions in the probe corpus", n, 15, config="probe")
+    report.floor("C06.DERIVE", "derive expansions in the probe corpus", n, 19, config="probe")
     if ctx.tier == "thorough":
         m = 0
         for f in ctx.all_facts("all-targets"):
